@@ -256,11 +256,11 @@ def run(tier, rep):
     shards = 6 if tier == "quick" else 16
     args = [{"shard": i, "tier": tier, "identities": 8, "pairs": 60 if tier == "quick" else 400, "bursts": 4 if tier == "quick" else 30,
              "delays": (i % 2 == 1)} for i in range(shards)]
-    for res in sandbox.run_many("vf.props.c07", "worker", args, workers=shards, timeout=1500):
+    for res in sandbox.run_many("vf.props.c07", "worker", args, workers=shards, timeout=1500 if tier == "quick" else 9000):
         rep.merge_worker(res)
     from .. import realbpf
     if not realbpf.build():
-        kres = sandbox.run("vf.props.kernelsec", "c07_worker", {"tier": tier, "rounds": 4 if tier == "quick" else 40}, timeout=900, pidns=False)
+        kres = sandbox.run("vf.props.kernelsec", "c07_worker", {"tier": tier, "rounds": 4 if tier == "quick" else 40}, timeout=900 if tier == "quick" else 5400, pidns=False)
         if kres.get("skip_reason"):
             rep.coverage["kernel_section_skip_reason"] = kres["skip_reason"][:300]
             kres.pop("inconclusive", None)
